@@ -69,6 +69,22 @@ func drawChainItem(t *simrt.Tape, idx int, v6 bool, allowBad bool) chainItem {
 		if allowBad && t.Draw(3) == 0 {
 			return chainItem{Name: "nosuchplugin", Args: []string{"x"}, Beh: "unknown"}
 		}
+	case 3:
+		if allowBad && t.Draw(2) == 0 {
+			// built-in plugins whose setup reports an error (some of them together with a non-nil handler)
+			bad := []chainItem{
+				{Name: "dns", Args: []string{"not-an-ip"}, Sup4: true, Sup6: true, Beh: "failsetup", ID: "dns"},
+				{Name: "dns", Args: []string{"10.0.0.2", "also-bad"}, Sup4: true, Sup6: true, Beh: "failsetup", ID: "dns"},
+				{Name: "searchdomains", Args: []string{"ok.example"}, Sup4: true, Sup6: true, Beh: "builtin"},
+				{Name: "sleep", Args: []string{"soon"}, Sup4: true, Sup6: true, Beh: "failsetup", ID: "sleep"},
+			}
+			if !v6 {
+				bad = append(bad, chainItem{Name: "router", Args: []string{"x"}, Sup4: true, Beh: "failsetup", ID: "router"},
+					chainItem{Name: "staticroute", Args: []string{"10.0.0.0/8"}, Sup4: true, Beh: "failsetup", ID: "staticroute"},
+					chainItem{Name: "netmask", Args: []string{"255.0.255.0"}, Sup4: true, Beh: "failsetup", ID: "netmask"})
+			}
+			return bad[t.Pick(len(bad))]
+		}
 	}
 	names := []struct {
 		n      string
